@@ -423,4 +423,136 @@ Section P.
     rewrite skip_two; [| unfold line_of; rewrite !app_length; cbn [List.length map]; lia | reflexivity | reflexivity].
     reflexivity.
   Qed.
+
+  (* ---- Gmsh 2 ASCII files written by other tools: $MeshFormat / $Nodes (id x y z) / $Elements (id 4 ntags tags.. n1 n2 n3 n4),
+          node numbers 1-based: loaded with zero-based indices; node and element ids and tag values are arbitrary *)
+  Definition gnode (n : Z * (K * K * K)) : list tok := let '(i, (x, y, z)) := n in [TZ i; TF x; TF y; TF z].
+  Definition gnrow (n : Z * (K * K * K)) : list K :=
+    let '(i, (x, y, z)) := n in [round32 (zK i); round32 x; round32 y; round32 z].
+  Definition gelem (e : Z * list Z * tet) : list tok :=
+    let '(i, tg, (a, b, c, d)) := e in
+    [TZ i; TZ 4; TZ (Z.of_nat (List.length tg))] ++ map (TZ (K:=K)) tg ++
+    [TZ (Z.of_nat a + 1); TZ (Z.of_nat b + 1); TZ (Z.of_nat c + 1); TZ (Z.of_nat d + 1)].
+  Definition gerow (e : Z * list Z * tet) : list Z :=
+    let '(i, tg, (a, b, c, d)) := e in
+    [i; 4%Z; Z.of_nat (List.length tg)] ++ tg ++ [Z.of_nat a + 1; Z.of_nat b + 1; Z.of_nat c + 1; Z.of_nat d + 1]%Z.
+  Definition gmsh_lines (ver : K) (dsize : Z) (ns : list (Z * (K * K * K))) (es : list (Z * list Z * tet)) : list (list tok) :=
+    [[TW "$MeshFormat"]; [TF ver; TZ 0; TZ dsize]; [TW "$EndMeshFormat"]; [TW "$Nodes"]; [TZ (Z.of_nat (List.length ns))]]
+    ++ map gnode ns
+    ++ [[TW "$EndNodes"]; [TW "$Elements"]; [TZ (Z.of_nat (List.length es))]]
+    ++ map gelem es ++ [[TW "$EndElements"]].
+
+  Lemma gnodes_num ns : Forall (fun l => forallb is_num l = true) (map gnode ns).
+  Proof. apply Forall_forall. intros l Hl. apply in_map_iff in Hl. destruct Hl as ([i [[x y] z]] & <- & _). reflexivity. Qed.
+  Lemma gnodes_len ns : List.length (List.concat (map gnode ns)) = (4 * List.length ns)%nat.
+  Proof. induction ns as [|[i [[x y] z]] ns IH]; [reflexivity|]. cbn [map List.concat gnode app List.length]. rewrite IH. lia. Qed.
+  Lemma gnodes_numK ns : all_some (map (numK round32 zK) (List.concat (map gnode ns))) = Some (List.concat (map gnrow ns)).
+  Proof.
+    induction ns as [|[i [[x y] z]] ns IH]; [reflexivity|]. cbn [map List.concat gnode gnrow app all_some numK].
+    rewrite IH. reflexivity.
+  Qed.
+  Lemma gnrows_back ns :
+    all_some (map (fun r : list K => match r with [_; x; y; z] => Some (x, y, z) | _ => None end) (map gnrow ns)) = Some (map (fun n => r3 (snd n)) ns).
+  Proof. induction ns as [|[i [[x y] z]] ns IH]; [reflexivity|]. cbn [map gnrow all_some snd r3]. rewrite IH. reflexivity. Qed.
+  Lemma concat_len_const {A} (rows : list (list A)) w : Forall (fun r => List.length r = w) rows -> List.length (List.concat rows) = (List.length rows * w)%nat.
+  Proof. induction 1 as [|r rs Hr _ IH]; [reflexivity|]. cbn [List.concat List.length]. rewrite app_length, IH, Hr. lia. Qed.
+
+  Lemma gelems_num es : Forall (fun l => forallb is_num l = true) (map gelem es).
+  Proof.
+    apply Forall_forall. intros l Hl. apply in_map_iff in Hl. destruct Hl as ([[i tg] [[[a b] c] d]] & <- & _).
+    unfold gelem. rewrite !forallb_app. cbn [forallb is_num andb]. rewrite andb_true_r.
+    apply forallb_forall. intros x Hx. apply in_map_iff in Hx. destruct Hx as (z & <- & _). reflexivity.
+  Qed.
+  Lemma gelem_len e : List.length (gelem e) = (7 + List.length (snd (fst e)))%nat.
+  Proof. destruct e as [[i tg] [[[a b] c] d]]. unfold gelem. rewrite !app_length, map_length. cbn [List.length fst snd]. lia. Qed.
+  Lemma gerow_len e : List.length (gerow e) = (7 + List.length (snd (fst e)))%nat.
+  Proof. destruct e as [[i tg] [[[a b] c] d]]. unfold gerow. rewrite !app_length. cbn [List.length fst snd]. lia. Qed.
+  Lemma gelems_tokZ es : all_some (map (tokZ (K:=K)) (List.concat (map gelem es))) = Some (List.concat (map gerow es)).
+  Proof.
+    induction es as [|[[i tg] [[[a b] c] d]] es IH]; [reflexivity|]. cbn [map List.concat]. rewrite map_app.
+    assert (E : forall l1 l2 r1 r2, all_some (map (tokZ (K:=K)) l1) = Some r1 -> all_some (map (tokZ (K:=K)) l2) = Some r2 ->
+                all_some (map (tokZ (K:=K)) l1 ++ map (tokZ (K:=K)) l2) = Some (r1 ++ r2)).
+    { induction l1 as [|x l1 IH1]; intros l2 r1 r2 H1 H2.
+      - cbn in H1. inversion H1. exact H2.
+      - cbn [map all_some app] in *. destruct (tokZ x) as [z|]; [|discriminate].
+        destruct (all_some (map (tokZ (K:=K)) l1)) as [r1'|] eqn:E1; [|discriminate]. inversion H1; subst.
+        rewrite (IH1 l2 r1' r2 eq_refl H2). reflexivity. }
+    apply E; [|exact IH]. unfold gelem, gerow. clear.
+    cbn [app map all_some tokZ]. rewrite map_app. cbn [map].
+    assert (T : forall tl rest, all_some (map (tokZ (K:=K)) (map (TZ (K:=K)) tl) ++ rest) =
+                                match all_some rest with Some r => Some (tl ++ r) | None => None end).
+    { induction tl as [|z tl IHt]; intros rest; cbn [map app all_some tokZ]; [destruct (all_some rest); reflexivity|].
+      rewrite IHt. destruct (all_some rest); reflexivity. }
+    rewrite T. cbn [all_some tokZ]. reflexivity.
+  Qed.
+  Definition glast4 (e : Z * list Z * tet) : list Z :=
+    let '(_, _, (a, b, c, d)) := e in [Z.of_nat a + 1; Z.of_nat b + 1; Z.of_nat c + 1; Z.of_nat d + 1]%Z.
+  Lemma gerow_last4 e : skipn (List.length (gerow e) - 4) (gerow e) = glast4 e.
+  Proof.
+    rewrite gerow_len. destruct e as [[i tg] [[[a b] c] d]]. cbn [fst snd]. unfold gerow, glast4.
+    replace (7 + List.length tg - 4)%nat with (List.length ([i; 4%Z; Z.of_nat (List.length tg)] ++ tg)) by (rewrite app_length; cbn [List.length]; lia).
+    rewrite app_assoc. rewrite skipn_app, Nat.sub_diag, skipn_all. reflexivity.
+  Qed.
+  Lemma glast4_back e : map (fun z => Z.to_nat (z - 1)) (glast4 e) = let '(a, b, c, d) := snd e in [a; b; c; d].
+  Proof.
+    destruct e as [[i tg] [[[a b] c] d]]. cbn [glast4 snd map].
+    replace (Z.of_nat a + 1 - 1)%Z with (Z.of_nat a) by lia. replace (Z.of_nat b + 1 - 1)%Z with (Z.of_nat b) by lia.
+    replace (Z.of_nat c + 1 - 1)%Z with (Z.of_nat c) by lia. replace (Z.of_nat d + 1 - 1)%Z with (Z.of_nat d) by lia.
+    rewrite !Nat2Z.id. reflexivity.
+  Qed.
+  Lemma gerows_back es :
+    rows4 (map (fun row => map (fun z => Z.to_nat (z - 1)) (skipn (List.length row - 4) row)) (map gerow es)) = Some (map snd es).
+  Proof.
+    unfold rows4. induction es as [|e es IH]; [reflexivity|]. cbn [map].
+    rewrite gerow_last4, glast4_back. destruct e as [[i tg] [[[a b] c] d]]. cbn [snd all_some]. cbn [map] in IH. rewrite IH. reflexivity.
+  Qed.
+
+  Theorem gmsh_file_loads ver dsize (ns : list (Z * (K * K * K))) (es : list (Z * list Z * tet)) ntags :
+    es <> [] -> Forall (fun e => List.length (snd (fst e)) = ntags) es ->
+    read_gmsh round32 zK (lines_of (gmsh_lines ver dsize ns es)) = Some (map (fun n => r3 (snd n)) ns, map snd es).
+  Proof.
+    intros Hne Htg. unfold gmsh_lines, read_gmsh. cbn [app]. rewrite !lines_of_cons.
+    rewrite readline_line. cbn [String.eqb Ascii.eqb Bool.eqb negb].
+    rewrite readline_line. cbn [Z.eqb negb].
+    rewrite readline_line. cbn [String.eqb Ascii.eqb Bool.eqb negb].
+    rewrite readline_line. cbn [String.eqb Ascii.eqb Bool.eqb negb].
+    rewrite readline_line. rewrite Nat2Z.id.
+    rewrite lines_of_app.
+    rewrite <- gnodes_len. rewrite (take_nums_lines _ _ (gnodes_num ns)); [| cbn [app]; rewrite lines_of_cons; apply line_of_starts; discriminate].
+    rewrite Nat.eqb_refl. cbn [negb]. rewrite gnodes_numK.
+    assert (Lr : Forall (fun r : list K => List.length r = 4%nat) (map gnrow ns)).
+    { apply Forall_forall. intros r Hr. apply in_map_iff in Hr. destruct Hr as ([i [[x y] z]] & <- & _). reflexivity. }
+    rewrite (chunkn_concat 4 (map gnrow ns)); [| lia | exact Lr | rewrite (concat_len_const _ 4 Lr), map_length; lia].
+    rewrite gnrows_back.
+    cbn [app]. rewrite !lines_of_cons.
+    rewrite readline_line. cbn [String.eqb Ascii.eqb Bool.eqb negb].
+    rewrite readline_line. cbn [String.eqb Ascii.eqb Bool.eqb negb].
+    rewrite readline_line. rewrite Nat2Z.id.
+    (* first element line *)
+    destruct es as [|e0 es']; [contradiction|]. set (es := e0 :: es') in *.
+    assert (Hw : forall e, In e es -> List.length (gelem e) = (7 + ntags)%nat).
+    { intros e He. rewrite gelem_len. rewrite Forall_forall in Htg. rewrite (Htg e He). reflexivity. }
+    assert (Hw' : forall e, In e es -> List.length (gerow e) = (7 + ntags)%nat).
+    { intros e He. rewrite gerow_len. rewrite Forall_forall in Htg. rewrite (Htg e He). reflexivity. }
+    rewrite lines_of_app.
+    assert (R0 : readline (lines_of (map gelem es) ++ lines_of [[TW "$EndElements"]]) = Some (gelem e0, lines_of (map gelem es') ++ lines_of [[TW "$EndElements"]])).
+    { unfold es. cbn [map]. rewrite lines_of_cons, <- app_assoc. apply readline_line. }
+    rewrite R0. rewrite (Hw e0 (or_introl eq_refl)).
+    assert (F0 : exists i0 tl0, gelem e0 = TZ i0 :: TZ 4 :: tl0).
+    { destruct e0 as [[i tg] [[[a b] c] d]]. unfold gelem. cbn [app]. eauto. }
+    destruct F0 as (i0 & tl0 & F0). rewrite F0. cbn [Z.eqb Pos.eqb negb].
+    assert (Lc : List.length (List.concat (map gelem es)) = (List.length (map gelem es) * (7 + ntags))%nat).
+    { apply concat_len_const. apply Forall_forall. intros r Hr. apply in_map_iff in Hr. destruct Hr as (e & <- & He). apply Hw. exact He. }
+    rewrite map_length in Lc.
+    rewrite <- Lc. rewrite (take_nums_lines _ _ (gelems_num es)); [| right; cbn; eauto].
+    rewrite Nat.eqb_refl. cbn [negb]. rewrite gelems_tokZ.
+    assert (Lz : Forall (fun r : list Z => List.length r = (7 + ntags)%nat) (map gerow es)).
+    { apply Forall_forall. intros r Hr. apply in_map_iff in Hr. destruct Hr as (e & <- & He). apply Hw'. exact He. }
+    rewrite (chunkn_concat (7 + ntags) (map gerow es)); [| lia | exact Lz | rewrite (concat_len_const _ _ Lz), map_length; nia].
+    rewrite lines_of_cons, readline_line. cbn [String.eqb Ascii.eqb Bool.eqb negb].
+    assert (Sk : map (fun row : list Z => map (fun z => Z.to_nat (z - 1)) (skipn (7 + ntags - 4) row)) (map gerow es)
+                 = map (fun row => map (fun z => Z.to_nat (z - 1)) (skipn (List.length row - 4) row)) (map gerow es)).
+    { apply map_ext_in. intros r Hr. rewrite Forall_forall in Lz. rewrite (Lz r Hr). reflexivity. }
+    rewrite Sk, gerows_back. reflexivity.
+  Qed.
 End P.
